@@ -82,7 +82,10 @@ impl DualConnector {
         let generate_feature_map = |feat_ids_tmp: &[Vec<U31>]| {
             let mut conn_id_map = vec![0];
             let mut feats_map = HashMap::new();
-            feats_map.insert(vec![U31::default(); feat_template_size - SIMD_SIZE], 0);
+            feats_map.insert(
+                vec![U31::default(); feat_template_size.saturating_sub(SIMD_SIZE)],
+                0,
+            );
             for row in feat_ids_tmp {
                 let mut feat_ids = vec![];
                 for &idx in matrix_indices {
@@ -178,6 +181,9 @@ impl DualConnector {
                 raw_indices.push(i);
             }
         }
+        // Fewer than SIMD_SIZE templates: pads with an index no row has, so that every
+        // connection id keeps exactly one SIMD_SIZE-lane row in the raw part.
+        raw_indices.resize(SIMD_SIZE, usize::MAX);
 
         let (matrix_connector, right_conn_id_map, left_conn_id_map) = Self::create_matrix_connector(
             &right_feat_ids_tmp,
